@@ -6,6 +6,7 @@ import (
 	"bytes"
 	"fmt"
 	"math/rand"
+	"sync"
 	"testing"
 	"time"
 
@@ -618,7 +619,7 @@ func TestC02(t *testing.T) {
 		}
 	}
 	if !run.Replaying() {
-		run.Require("alone|never-had-peers", "alone|peers-long-dead")
+		run.Require("alone|never-had-peers", "alone|peers-long-dead", "alone|big-backlog")
 	}
 	run.Complete()
 	if run.Violations() > 0 {
@@ -648,7 +649,12 @@ func runC02Alone(run *Run, seed int64, caseNo int, rng *rand.Rand) (out []*c01Re
 		out = append(out, &c01Result{"C02/alone/" + key, fmt.Sprintf(f, a...)})
 	}
 	mode := []string{"never-had-peers", "peers-long-dead"}[caseNo%2]
-	rig, err := NewRig(RigOpts{Seed: seed, Spec: NodeSpec{Name: "V", IP: "10.9.9.9", Mutate: func(cf *memberlist.Config) {
+	if caseNo%8 == 2 {
+		mode = "big-backlog" // (costly: thousands of members)
+	}
+	// (the event monitor compares the whole table inside every callback: quadratic in the thousands of members of
+	// the backlog scenario, which is about the broadcast queue, so it runs without it)
+	rig, err := NewRig(RigOpts{Seed: seed, Spec: NodeSpec{Name: "V", IP: "10.9.9.9", NoEvents: mode == "big-backlog", Mutate: func(cf *memberlist.Config) {
 		cf.ProbeInterval = noProbe
 		cf.PushPullInterval = 0
 		cf.GossipInterval = 200 * time.Millisecond
@@ -660,6 +666,78 @@ func runC02Alone(run *Run, seed int64, caseNo int, rng *rand.Rand) (out []*c01Re
 	}
 	defer rig.Close()
 	x := rig.AddPeer("x", "10.9.1.1", 7946)
+	// every datagram the node sends, whoever it is addressed to
+	var tapMu sync.Mutex
+	sentAlive := map[uint32]int{} // incarnation -> datagrams carrying an alive message about the node with it
+	rig.C.Net.OnPacket = append(rig.C.Net.OnPacket, func(ev *PacketEvent) {
+		if ev.From != rig.V.EP.Addr || ev.Closed {
+			return
+		}
+		pi := ParsePacket(ev.Buf, rig.Keys)
+		if pi.Err != nil {
+			return
+		}
+		for _, l := range pi.Leaves {
+			var a WAlive
+			if l.Type == TAlive && mpDecode(l.Body, &a) == nil && a.Node == "V" {
+				tapMu.Lock()
+				sentAlive[a.Incarnation]++
+				tapMu.Unlock()
+			}
+		}
+	})
+	if mode == "big-backlog" {
+		// the node has just learnt of thousands of members in one state exchange: its broadcast queue holds
+		// thousands of announcements that have not been transmitted once, all longer than its own
+		rig.Introduce(x, 1)
+		Settle(time.Millisecond)
+		nodes := []WPushNodeState{x.Self(1)}
+		for i := 0; i < 5000; i++ {
+			nodes = append(nodes, WPushNodeState{Name: fmt.Sprintf("member-%04d", i), Addr: []byte{10, 20, byte(i / 250), byte(1 + i%250)}, Port: 7946, Incarnation: 1, State: SAlive, Meta: []byte("some-metadata"), Vsn: DefaultVsn()})
+		}
+		if _, _, err := x.PushPull(false, nodes, nil); err != nil {
+			fail("harness/pushpull", "%v", err)
+			return
+		}
+		Settle(time.Millisecond)
+		if n := rig.V.ML().NumMembers(); n < 5000 {
+			fail("harness/backlog", "only %d members after the exchange", n)
+			return
+		}
+		own := rig.V.Record("V")
+		acc := own.Incarnation + uint32(rng.Intn(2))
+		x.Send(Enc(TSuspect, &WSuspect{Incarnation: acc, Node: "V", From: "x"}))
+		Settle(time.Millisecond)
+		after := rig.V.Record("V")
+		if after == nil || after.Incarnation <= acc || after.State != memberlist.StateAlive {
+			fail("refute/incarnation", "accused at incarnation %d with %d broadcasts queued; own record now %s", acc, rig.V.ML().VerifNumQueued(), recString(after))
+			return
+		}
+		newInc := after.Incarnation
+		run.Cell("alone", mode)
+		queued := func() bool {
+			for _, q := range rig.V.ML().VerifQueued() {
+				var a WAlive
+				if len(q.Msg) > 1 && q.Msg[0] == TAlive && mpDecode(q.Msg[1:], &a) == nil && a.Node == "V" && a.Incarnation == newInc {
+					return true
+				}
+			}
+			return false
+		}
+		sent := func() int { tapMu.Lock(); defer tapMu.Unlock(); return sentAlive[newInc] }
+		for waited := time.Duration(0); waited < 10*time.Minute; waited += 2 * time.Second {
+			if sent() > 0 {
+				return
+			}
+			if !queued() {
+				fail("refutation-discarded", "the node refuted an accusation (incarnation %d -> %d) while %d other broadcasts were queued; %v later the alive message with incarnation %d is not queued any more and no datagram has carried it", acc, newInc, 5000, waited, newInc)
+				return
+			}
+			Settle(2 * time.Second)
+		}
+		fail("refutation-never-gossiped", "the node refuted an accusation (incarnation %d -> %d) behind a backlog of 5000 broadcasts; 10 minutes of gossip rounds later no datagram has carried the alive message with incarnation %d (still queued: %v)", acc, newInc, newInc, queued())
+		return
+	}
 	if mode == "peers-long-dead" {
 		rig.Introduce(x, 1)
 		Settle(time.Millisecond)
